@@ -25,4 +25,9 @@ deriving Repr, DecidableEq, Inhabited
 /-- `len(strconv.Itoa(x))` -/
 def itoaLen (x : Int) : Int := (toString x).length
 
+/-- placeholder the extractor emits for an expression it cannot translate (it also records a
+problem): the generated file still compiles, so that only the theorems that use the affected
+definition stop checking -/
+def untranslated {α : Type} [Inhabited α] : α := default
+
 end Sqroot
